@@ -6,7 +6,7 @@ namespace SM
 open Map
 
 theorem mem_sortCtxIds (l : List CtxId) (c : CtxId) : c ∈ sortCtxIds l ↔ c ∈ l := by
-  unfold sortCtxIds; exact List.mem_mergeSort
+  unfold sortCtxIds; exact (isort_perm _ l).mem_iff
 
 theorem mem_queuedAt (q : FSet (Int × CtxId)) (h : Int) (c : CtxId) : c ∈ queuedAt q h ↔ (h, c) ∈ q := by
   unfold queuedAt
